@@ -49,6 +49,14 @@ Add(k, x, c) ==
   /\ srch' = [srch EXCEPT ![k] = AddColl(@, SearchOf[c], x)]
   /\ last' = [op |-> "add", k |-> k, id |-> x, c |-> c]
 
+(* add_<kind>_safe of an id that is present, at the cell it stands on (a rider who submits the same request again, an entity
+   loaded twice): whether the code replaces the entity or refuses, the three maps are what they were.  Re-adding at ANOTHER
+   cell is not modelled: ids are taken to be unique among the live entities of different positions. *)
+ReAdd(k, x) ==
+  /\ x \in DOMAIN ent[k]
+  /\ UNCHANGED <<ent, loc, srch>>
+  /\ last' = [op |-> "add", k |-> k, id |-> x, c |-> ent[k][x]]
+
 (* remove_<kind>_safe *)
 Remove(k, x) ==
   /\ x \in DOMAIN ent[k]
@@ -74,6 +82,7 @@ Next ==
   \E k \in Kinds : \E x \in Ids[k] :
      \/ \E c \in Cells : Add(k, x, c) \/ Modify(k, x, c)
      \/ Remove(k, x)
+     \/ ReAdd(k, x)
 
 Spec == Init /\ [][Next]_vars
 
